@@ -316,6 +316,16 @@ func (e *Engine) staticAssignComps(m *ModSet, x Expr, ptypes map[string]types.Ty
 			return true
 		}
 	}
+	if c, ok := x.(*ECall); ok {
+		if id, ok := c.Fun.(*EIdent); ok && id.Name == "anyelems" && len(c.Args) == 1 {
+			env := &SpecEnv{f: &Frame{vc: &VC{eng: e}}, pkg: pkg}
+			if t := env.resolveType(exprText(c.Args[0])); t != nil {
+				addElemComps(m, t)
+				return true
+			}
+			return false
+		}
+	}
 	if s, ok := x.(*EStar); ok {
 		if ix, ok := s.X.(*EIndex); ok && ix.I == nil {
 			t := e.staticType(ix.X, ptypes)
